@@ -20,8 +20,8 @@ EXTENDS BrokerAbs, Json, IOUtils, TLCExt
 
 Traces == JsonDeserialize(IOEnv.TRACE_FILE)
 
-VARIABLES tid, l, calls, chk, devs, taint, rdl, rdls, dead
-tvars == <<tid, l, calls, chk, devs, taint, rdl, rdls, dead>>
+VARIABLES tid, l, calls, chk, devs, taint, rdl, rdls, dead, unsure
+tvars == <<tid, l, calls, chk, devs, taint, rdl, rdls, dead, unsure>>
 allvars == <<vars, tvars>>
 
 Ev == Traces[tid][l]
@@ -34,24 +34,30 @@ Call(k) == IF k \in DOMAIN calls THEN calls[k] ELSE NoCall
 Done(k) == calls' = [calls EXCEPT ![k].done = TRUE]
 
 TInit == /\ Init
-         /\ tid \in 1..Len(Traces) /\ l = 1 /\ calls = <<>> /\ chk = {} /\ devs = {} /\ taint = {} /\ rdl = [i \in Ids |-> 0] /\ rdls = [i \in Ids |-> 0] /\ dead = {}
+         /\ tid \in 1..Len(Traces) /\ l = 1 /\ calls = <<>> /\ chk = {} /\ devs = {} /\ taint = {} /\ rdl = [i \in Ids |-> 0] /\ rdls = [i \in Ids |-> 0] /\ dead = {} /\ unsure = {}
          /\ TLCSet(tid, 1)
 
 THdr == /\ Is("hdr") /\ Step
         /\ chk' = ToSet(Ev.chk) /\ devs' = ToSet(Ev.devs)
-        /\ UNCHANGED <<vars, calls, taint, rdl, rdls, dead>>
+        /\ UNCHANGED <<vars, calls, taint, rdl, rdls, dead, unsure>>
 
 TCons == /\ Is("cons") /\ Step
          /\ cons' = [cons EXCEPT ![Ev.c] = [on |-> FALSE, q |-> Ev.q, cat |-> Ev.cat, topics |-> ToSet(Ev.topics)]]
-         /\ UNCHANGED <<now, st, loc, meta, holder, origin, deliv, ret, norder, transit, pend, calls, chk, devs, taint, rdl, rdls, dead>>
+         /\ UNCHANGED <<now, st, loc, meta, holder, origin, deliv, ret, norder, transit, pend, calls, chk, devs, taint, rdl, rdls, dead, unsure>>
 
 (* C05 bounded latency: a consume() call of a normal consumer that has been waiting since before *)
 (* message i fell due is not still empty-handed after i's deadline (dl = due + latency bound),    *)
 (* while i is waiting, matching and alive.                                                       *)
-Starved(t) ==
+Dev(name) == name \in devs
+
+(* known finding (RabbitMQ): per-message TTL expires at the head of the delay queue only, so a delayed  *)
+(* message waits behind any message of the same delay queue that falls due later                       *)
+BlockedBehind(i) == \E j \in Ids : j # i /\ Live(j) /\ loc[j] = U("d") /\ meta[j].q = meta[i].q /\ meta[j].due > meta[i].due
+Starved(t, headOfLine) ==
     \E k \in DOMAIN calls : \E i \in Ids :
+        /\ ~(headOfLine /\ loc[i] = U("d") /\ BlockedBehind(i))
         /\ calls[k].op = "consume" /\ ~calls[k].done
-        /\ cons[calls[k].c].cat = "n" /\ cons[calls[k].c].on
+        /\ cons[calls[k].c].cat = "n" /\ cons[calls[k].c].on /\ calls[k].c \notin unsure
         /\ calls[k].m.dl # NoTime /\ t > calls[k].m.dl          \* the call has been waiting longer than the bound
         /\ Live(i) /\ holder[i] = NoC /\ Matches(calls[k].c, i) /\ (loc[i] = U("n") \/ loc[i] = U("d"))
         /\ meta[i].dl # NoTime /\ t > meta[i].dl                \* ... and i has been deliverable longer than the bound
@@ -59,22 +65,20 @@ Starved(t) ==
 
 TTime == /\ Is("time") /\ Step
          /\ Ev.now >= now /\ now' = Ev.now
-         /\ ("latency" \in chk => ~Starved(Ev.now))
-         /\ UNCHANGED <<st, loc, meta, holder, origin, deliv, ret, cons, norder, transit, pend, calls, chk, devs, taint, rdl, rdls, dead>>
+         /\ ("latency" \in chk => (~Starved(Ev.now, FALSE) \/ (Dev("rabbit_head_of_line") /\ ~Starved(Ev.now, TRUE))))
+         /\ UNCHANGED <<st, loc, meta, holder, origin, deliv, ret, cons, norder, transit, pend, calls, chk, devs, taint, rdl, rdls, dead, unsure>>
 
 TBegin == /\ Is("begin") /\ Step
           /\ calls' = (Ev.k :> [op |-> Ev.op, c |-> Ev.c, i |-> Ev.i, m |-> MetaOf(Ev.m), done |-> FALSE, t0 |-> now,
                                 h0 |-> (Ev.i # 0 /\ Ev.c # 0 /\ Held(Ev.c, Ev.i))]) @@ calls
           /\ IF Ev.op = "start" THEN Start(Ev.c)
              ELSE UNCHANGED vars
-          /\ UNCHANGED <<chk, devs, taint, rdl, rdls, dead>>
+          /\ UNCHANGED <<chk, devs, taint, rdl, rdls, dead, unsure>>
 
 -----------------------------------------------------------------------------
 (* Deviation actions: behaviours of the pinned code that the contract forbids.  They are        *)
 (* disabled unless the trace header lists them (a rejected trace is re-validated with the        *)
 (* deviations of the known findings enabled, see known_findings.json).                           *)
-Dev(name) == name \in devs
-
 \* in-memory reject(): a message taken through the delayed/dead category goes back to `normal'
 DevRejectToNormal(c, i) ==
     /\ Dev("inmem_reject_to_normal")
@@ -190,6 +194,10 @@ TMove ==
           \/ /\ cl.op = "finish"
              /\ \E pl \in Cats : ReturnHeld(cl.c, i, pl)
              /\ UNCHANGED <<calls, taint>>
+          \* a consumer gives back a message it had taken (prefetched) but not handed to its client
+          \/ /\ Ev.c # 0 /\ holder[i] = Ev.c /\ ~deliv[i] /\ cl.op # "finish"
+             /\ \E pl \in Cats : ReturnHeld(Ev.c, i, pl)
+             /\ UNCHANGED <<calls, taint>>
           \* C03: the in-flight message of a consumer whose process died becomes deliverable again,
           \* once its execution timeout has elapsed -- and not before, and never while the holder is alive
           \/ /\ k = 0 /\ holder[i] \in dead
@@ -211,7 +219,7 @@ TMove ==
        /\ loc'[i] = new
     /\ rdl' = IF Ev.rdl # 0 THEN [rdl EXCEPT ![Ev.i] = Ev.rdl] ELSE rdl
     /\ rdls' = IF Ev.rdl # 0 THEN [rdls EXCEPT ![Ev.i] = Ev.rdls] ELSE rdls
-    /\ UNCHANGED <<chk, devs, dead>>
+    /\ UNCHANGED <<chk, devs, dead, unsure>>
 
 (* End of a call.  ok: the effect must have been applied.  exc/cancel: all or nothing.           *)
 TEnd ==
@@ -235,23 +243,31 @@ TEnd ==
                  /\ UNCHANGED vars /\ UNCHANGED <<calls, taint>>
             [] cl.op = "requeue" ->
                  /\ ((Ev.st = "ok" /\ cl.h0 /\ cl.i \notin taint) => cl.done)
-                 /\ (cl.i \notin taint => ~transit[cl.i])      \* never left in the remove/add gap
-                 /\ UNCHANGED vars /\ UNCHANGED <<calls, taint>>
+                 /\ \/ /\ (cl.i \notin taint => ~transit[cl.i])      \* never left in the remove/add gap
+                       /\ UNCHANGED vars /\ UNCHANGED <<calls, taint>>
+                    \* known finding: RabbitMQ requeue = ack, then publish; interrupted in between, the message is gone
+                    \/ /\ Dev("rabbit_requeue_gap") /\ Ev.st # "ok" /\ transit[cl.i]
+                       /\ transit' = [transit EXCEPT ![cl.i] = FALSE]
+                       /\ st' = [st EXCEPT ![cl.i] = "acked"] /\ holder' = [holder EXCEPT ![cl.i] = NoC]
+                       /\ UNCHANGED <<now, loc, meta, origin, deliv, ret, cons, norder, pend, calls>>
+                       /\ taint' = taint \cup {cl.i}
             [] cl.op = "finish" ->
                  /\ IF Ev.st = "ok" THEN Stop(cl.c) ELSE UNCHANGED vars
                  /\ Done(k) /\ taint' = taint
             [] OTHER -> UNCHANGED vars /\ UNCHANGED <<calls, taint>>
+    \* a start() that was interrupted may or may not have taken effect: that consumer is not known to be listening
+    /\ unsure' = IF (Call(Ev.k).op = "start" /\ Ev.st # "ok") THEN unsure \cup {Call(Ev.k).c} ELSE unsure
     /\ UNCHANGED <<chk, devs, rdl, rdls, dead>>
 
 (* full observation of the broker: the contract state must agree with it for every id *)
 TObs == /\ Is("obs") /\ Step
         /\ \A j \in Ids : loc[j] = (IF j <= Len(Ev.v) THEN Vec(Ev.v[j]) ELSE Zero)
-        /\ UNCHANGED <<vars, calls, chk, devs, taint, rdl, rdls, dead>>
+        /\ UNCHANGED <<vars, calls, chk, devs, taint, rdl, rdls, dead, unsure>>
 
 (* the process owning these consumers died without any cleanup *)
 TCrash == /\ Is("crash") /\ Step
           /\ dead' = dead \cup ToSet(Ev.cs)
-          /\ UNCHANGED <<vars, calls, chk, devs, taint, rdl, rdls>>
+          /\ UNCHANGED <<vars, calls, chk, devs, taint, rdl, rdls, unsure>>
 
 TraceConsCfgs == {[c \in Consumers |-> [on |-> FALSE, q |-> 0, cat |-> "n", topics |-> {}]]}
 TNext == THdr \/ TCrash \/ TObs \/ TCons \/ TTime \/ TBegin \/ TMove \/ TEnd
